@@ -1055,6 +1055,14 @@ func panicSafety(env *vh.Env, rep *vh.Report) {
 				case *queue.RequestQueue:
 					q.SetCapacity(3) // full: Put is refused (Failed), PutForce evicts (Overflowed)
 					q.Failed, q.Overflowed = panicking, panicking
+				case *queue.RequestDoubleQueue:
+					// the callbacks of the double queue, through its public setters where they exist
+					q.SetCapacity(3, 1)
+					for _, sn := range []string{"SetCallbacks1", "SetCallbacks2"} {
+						if sm := reflect.ValueOf(q).MethodByName(sn); sm.IsValid() && sm.Type().NumIn() == 2 {
+							sm.Call([]reflect.Value{reflect.ValueOf(panicking), reflect.ValueOf(panicking)})
+						}
+					}
 				}
 				meth := reflect.ValueOf(obj).MethodByName(m)
 				args, ok := buildArgs(obj, meth.Type(), seed, c.mk)
